@@ -175,6 +175,22 @@ def run(rep, tier, seed, model_ok=True, effort=1):
                     if s3 != s2 and not wk53 and not two_digit_out:
                         rep.violation("a bumped version read back and rendered again gives a different text", input=dict(pattern=pat, old=s, new=s2, rendered_again=s3, flags={k_: v_ for k_, v_ in fl.items() if v_}), **{"class": "bumped-not-stable"})
         rep.sample(dict(pattern=pat, date=str(d), rendered=s, wf=info["wf"]))
+    # every special pattern of the generator on fixed boundary states (week 0 of %W / %U / ISO year differing from the calendar year, leap day,
+    # all-zero and non-zero numbers, final and non-final tags) -- independent of the random stream
+    from bumpver import version as _ver0
+    for sp in v2gen.SPECIAL_PATTERNS + EDGE_WS_PATTERNS:
+        if "^" in sp or "$" in sp:
+            continue
+        for sd_ in (dt.date(2016, 1, 2), dt.date(2017, 1, 1), dt.date(2024, 2, 29), dt.date(2021, 10, 4)):
+            for nums_, tag_ in (((0, 0, 0, 0, 0, 1), "final"), ((1, 0, 7, 2, 3, 4), "beta"), ((0, 12, 0, 0, 0, 1), "rc")):
+                c_ = impl.v2version.cal_info(sd_)
+                sv_ = _ver0.V2VersionInfo(c_.year_y, c_.year_g, c_.quarter, c_.month, c_.dom, c_.doy, c_.week_w, c_.week_u, c_.week_v,
+                                          nums_[0], nums_[1], nums_[2], "1009", tag_, v2gen.PYTAG[tag_], "", "", nums_[3] if tag_ != "final" else 0, nums_[4], nums_[5])
+                if week53(sv_, sp):
+                    continue
+                s_ = roundtrip_oracle(rep, impl, sv_, sp, dict(wf=True))
+                rep.case((sp, s_, "fixed"), nontrivial=bool(s_))
+                rep.count("special-patterns-fixed-states")
     # witnesses of the known finding (week 53), replayed on every run
     from bumpver import version as _ver
     for wd, wpat in ((dt.date(2018, 12, 31), "vYYYY.WW"), (dt.date(2017, 12, 31), "vYYYY.0U")):
